@@ -261,7 +261,14 @@ def verify_function(model, contract, timeout_ms=10000, body_override=None, extra
             n_ret += 1
             val = o.value if o.kind == "return" else const(None)
             if contract.result is not None:
+                rty0 = val.ty.inner if isinstance(val.ty, OptT) else val.ty
                 val = ex.coerce(val, parse_type(contract.result))
+                rty1 = val.ty.inner if isinstance(val.ty, OptT) else val.ty
+                if isinstance(rty0, ObjT) and isinstance(rty1, ObjT) and rty0.name != rty1.name and model.classes.get(rty1.name, {}).get("_abstract") \
+                        and rty0.name in model.subclasses(rty1.name):
+                    # a value of a concrete class returned where the abstract base is declared keeps its dynamic class
+                    o.state.assume(z3.Implies(val.term != NONE, model.isinstance_pred(rty0.name)(val.term)))
+                    model.type_facts(ex, val, o.state)
             # final values of mutable parameters are visible to ensures under their own names, entry values as old_<name>
             fenv = dict(penv)
             # parameters are call-by-value: a postcondition speaks about their entry values, except for parameters listed in
